@@ -360,3 +360,104 @@ REGISTRY[CP + 'PandasComparison.check_dataframe#columns'].abstraction = 'frames 
 REGISTRY[CP + 'PandasComparison.check_dataframe#level'].abstraction = 'frames are seen through a concrete column layout (reference a,b,c against an enumerated family of actual layouts), symbolic row counts and derived sub-frames; types_match, same_structure_ddiff, replace_cats and the message builders are assumed contracts with uninterpreted results'
 
 REGISTRY[CP + 'PandasComparison.check_dataframe#data'].abstraction = 'frames are seen through a concrete column layout (reference a,b,c against an enumerated family of actual layouts), symbolic row counts and derived sub-frames; types_match, same_structure_ddiff, replace_cats and the message builders are assumed contracts with uninterpreted results'
+
+
+# ---------------------------------------------------------------------------
+# check_serialized_dataframe / check_serialized_dataframes (C05, the on-disk entry points): the two files are loaded
+# with the same loader and loader arguments (reference from expected_path, actual from actual_path), the comparison
+# options are handed to check_dataframe unchanged, and the list form adds up the failures of every pair, counting a
+# pair whose comparison raises as one failure and going on to the next pair.
+# ---------------------------------------------------------------------------
+
+def _ser_view(it):
+    from pyvc import extract
+    mod = extract.load_module('tdda/referencetest/checkpandas.py')
+    o = SObj('PandasComparison', {'verbose': False, 'print_fn': Builtin(lambda it2, *a, **k: None, 'print_fn')},
+             label='self')
+    o.repo_class = mod.classes['PandasComparison']
+
+    def load(it2, self, path, actual_df=None, loader=None, **kw):
+        f = SObj('DataFrame', {'__open__': False, 'loaded_from': path, 'loader': loader, 'loader_kw': dict(kw)},
+                 label='frame')
+        it2.ghost.setdefault('loads', []).append(f)
+        return f
+    o.methods['load_serialized_dataframe'] = Builtin(load, 'load_serialized_dataframe')
+
+    def check(it2, self, df, ref_df, **kw):
+        r = SObj('FailureDiffs', {'__open__': False, 'failures': it2.fresh(T.nat, 'failures'), 'diffs': kw.get('msgs')})
+        it2.ghost.setdefault('checks', []).append((df, ref_df, dict(kw), r))
+        return r
+    o.methods['check_dataframe'] = Builtin(check, 'check_dataframe')
+    return o
+
+
+@specfn
+def compared_as_asked(it, result, actual_path, expected_path, loader, options):
+    loads, checks = it.ghost.get('loads', []), it.ghost.get('checks', [])
+    if len(loads) != 2 or len(checks) != 1:
+        return False
+    df, ref, kw, r = checks[0]
+    if result is not r:
+        return False
+    if not (df.attrs['loaded_from'] is actual_path and ref.attrs['loaded_from'] is expected_path):
+        return False
+    if not all(f.attrs['loader'] is loader for f in loads):
+        return False
+    if kw.get('actual_path') is not actual_path or kw.get('expected_path') is not expected_path:
+        return False
+    return all(kw.get(k) is v for k, v in options.items())
+
+
+_OPT = ('check_data', 'check_types', 'check_order', 'condition', 'sortby', 'precision', 'msgs')
+contract(CP + 'PandasComparison.check_serialized_dataframe', props=['C05'],
+         params=OrderedDict([('actual_path', T.str), ('expected_path', T.str), ('loader', T.opaque)]
+                            + [(k, T.opaque) for k in _OPT]),
+         self_view=_ser_view, spec_env=dict(PRIMS, compared_as_asked=compared_as_asked), result=T.none,
+         ensures=[('the-two-files-are-loaded-alike-and-compared-with-the-options-given',
+                   'compared_as_asked(result, actual_path, expected_path, loader, dict(check_data=check_data, '
+                   'check_types=check_types, check_order=check_order, condition=condition, sortby=sortby, '
+                   'precision=precision, msgs=msgs))')])
+
+
+def _sers_view(it):
+    o = _ser_view(it)
+
+    def one(it2, self, actual_path, expected_path, **kw):
+        k = len(it2.ghost.setdefault('pairs', []))
+        raises = it2.path.choose([True, True]) == 1
+        n = it2.fresh(T.nat, 'failures_of_pair_%d' % k)
+        it2.ghost['pairs'].append((actual_path, expected_path, dict(kw), None if raises else n))
+        if raises:
+            raise PyExc('ValueError', 'comparison of pair %d raised' % k)
+        return (n, kw.get('msgs'))
+    o.methods['check_serialized_dataframe'] = Builtin(one, 'check_serialized_dataframe')
+    o.methods['info'] = Builtin(lambda it2, self, *a, **k: None, 'info')
+    return o
+
+
+@specfn
+def failures_add_up(it, result, actual_paths, expected_paths):
+    pairs = it.ghost.get('pairs', [])
+    if len(pairs) != len(actual_paths):
+        return False
+    for (a, e, kw, n), wa, we in zip(pairs, actual_paths, expected_paths):
+        if a is not wa or e is not we:
+            return False
+    total = z3.Sum([(n.z if n is not None else z3.IntVal(1)) for a, e, kw, n in pairs]) if pairs else z3.IntVal(0)
+    got = result[0]
+    gz = got.z if isinstance(got, SInt) else z3.IntVal(int(got))
+    return SBool(gz == total)
+
+
+_TWO_PATHS = T.custom(lambda it, n: [it.fresh_str(n + '0'), it.fresh_str(n + '1')])
+def _sers_entry(it, senv):
+    it.spec_env['Diffs'] = Builtin(lambda it2: SObj('Diffs', {'__open__': True}))
+
+
+contract(CP + 'PandasComparison.check_serialized_dataframes', props=['C05'], on_entry=_sers_entry,
+         params=OrderedDict([('actual_paths', _TWO_PATHS), ('expected_paths', _TWO_PATHS)]
+                            + [(k, T.opaque) for k in ('check_data', 'check_types', 'check_order', 'condition', 'sortby')]
+                            + [('msgs', T.const(None))]),
+         self_view=_sers_view, spec_env=dict(PRIMS, failures_add_up=failures_add_up), result=T.none,
+         ensures=[('every-pair-is-compared-and-the-failures-add-up-a-raising-pair-counting-one',
+                   'failures_add_up(result, actual_paths, expected_paths)')])
